@@ -103,3 +103,8 @@ Definition region_starts (g : graph) (utf8 : bool) (codes : list N) (isprefix : 
   | (rs, Finished s _) => map region_start rs ++ [s]
   | (rs, _) => map region_start rs
   end.
+
+(* the emitted program parsed from the generated code (Engine/Prog.v), run through the same lexing loop *)
+From LogosV Require Import Engine.Prog.
+Definition run_prog (U : nat) (p : prog) (nstates : nat) (utf8 : bool) (codes : list N) (isprefix : bool) (w : list byte) : list N :=
+  enc_result utf8 codes w (lex_all (fun ip s r => fst (attempt_prog U p nstates ip s r)) (act_of utf8 codes w) (fb_of utf8 w) w isprefix).
